@@ -252,6 +252,12 @@ where
         h = (dny / dnf).sqrt() * 0.01;
     }
 
+    // The guess must be resolvable on the time axis: far from the origin (|x| >= 1e9) the absolute
+    // fallback 1e-6 is below an ulp of x, x + h is x again and the solver gives up at once.
+    let h_res = 64.0 * Float::EPSILON * x.abs();
+    if h < h_res {
+        h = h_res;
+    }
     if h > hmax.abs() {
         h = hmax.abs();
     }
@@ -281,6 +287,6 @@ where
         h1 = (0.01_f64 / der12).powf(1.0_f64 / (iord as Float));
     }
 
-    let h_final = h.abs().min(100.0_f64 * h.abs()).min(h1).min(hmax.abs());
+    let h_final = h.abs().min(100.0_f64 * h.abs()).min(h1).max(h_res).min(hmax.abs());
     h_final.abs() * posneg.signum()
 }
